@@ -4,12 +4,14 @@ import (
 	"bytes"
 	"fmt"
 	"math/rand"
+	"net"
 	"os"
 	"strconv"
 	"strings"
 	"sync"
 	"sync/atomic"
 	"time"
+	"verif/internal/rclient"
 
 	predis "github.com/samaritan-proxy/samaritan/pb/config/protocol/redis"
 
@@ -611,6 +613,8 @@ func c01(r *ev.Run) {
 			c01Workload(r, s, r.Seed*31+int64(round), nconns, npipes, fmt.Sprintf("plain-%d", round), st, false)
 		}
 		c01Workload(r, s, r.Seed*37+int64(round), nconns, npipes/3, fmt.Sprintf("compression-%d", round), st, true)
+		c01StopAndWait(r, s, r.Seed*43+int64(round), 8, 150)
+		c01HalfClose(r, s, r.Seed*47+int64(round), 40)
 		s.Close()
 	}
 	// sustained redirection: nothing is ever routed right at the first attempt
@@ -643,7 +647,177 @@ func c01(r *ev.Run) {
 	r.Count("reshards", st.reshards)
 	r.Require("pipelines_with_inverted_backend_completion", 5)
 	r.Require("redirected_requests", 1)
+	r.Require("stop_and_wait_requests", 500)
+	r.Require("half_closed_pipelines_answered", 20)
 	for _, c := range []string{"big-mget", "big-del", "big-array-reply", "banned-under-compression"} {
 		r.Require("class:"+c, 3)
+	}
+}
+
+// c01StopAndWait: a client whose segments end in the middle of the next request and that waits for the replies to the requests it has
+// completed before it sends the rest (a slow link, a client that computes the tail of its request from the reply). The reply to a
+// complete request must not be held back by the bytes of an incomplete one behind it.
+func c01StopAndWait(r *ev.Run, s *sutc.SUT, seed int64, nconns, nreq int) {
+	rnd := rand.New(rand.NewSource(seed))
+	cl, err := fakecluster.New(3, 0)
+	if err != nil {
+		r.Internal("fakecluster: %v", err)
+		return
+	}
+	defer cl.Close()
+	cl.LogArgs = false
+	randomLayout(rnd, cl)
+	var completed sync.Map
+	for _, n := range cl.Nodes {
+		n.Handler = echoHandler(n, &completed)
+	}
+	svc, err := startRedisSvc(s, cl, cl.Addrs(), RedisOpts{})
+	if err != nil || !svc.WaitRouting(1, 10*time.Second) {
+		r.Internal("stop-and-wait: service did not start: %v", err)
+		return
+	}
+	defer s.StopProc(svc.Name, 20*time.Second)
+	var wg sync.WaitGroup
+	var bad int32
+	for c := 0; c < nconns; c++ {
+		wg.Add(1)
+		go func(c int) {
+			defer wg.Done()
+			crnd := rand.New(rand.NewSource(seed*131 + int64(c)))
+			conn, err := svc.Dial()
+			if err != nil {
+				r.Internal("dial: %v", err)
+				return
+			}
+			defer conn.Close()
+			var carry []byte // the part of the current request that has been sent already is not in here: only what is still to send
+			cur := c01GenReq(crnd, 9000+c, 0, false, false)
+			carry = cur.raw
+			for i := 0; i < nreq && atomic.LoadInt32(&bad) == 0; i++ {
+				next := c01GenReq(crnd, 9000+c, i+1, false, false)
+				// the rest of the current request, then a proper prefix of the next one; cuts prefer the header lines
+				cut := 1 + crnd.Intn(len(next.raw)-1)
+				if crnd.Intn(2) == 0 {
+					cut = 1 + crnd.Intn(min(len(next.raw)-1, 12))
+				}
+				if _, err := conn.C.Write(append(append([]byte{}, carry...), next.raw[:cut]...)); err != nil {
+					r.Inconclusive("stop-and-wait:write-failed")
+					return
+				}
+				v, err := conn.Read(3 * time.Second)
+				w := map[string]interface{}{"connection": c, "request": i, "class": cur.class, "complete_request": abbrevArg(cur.raw), "bytes_of_the_next_request_sent_behind_it": abbrevArg(next.raw[:cut]), "next_class": next.class}
+				if err != nil {
+					if !s.Alive() {
+						return
+					}
+					atomic.StoreInt32(&bad, 1)
+					r.Violation("C01:missing-reply:withheld-behind-incomplete-request", "the reply to a complete request did not arrive within 3 s while the first bytes of the next request were already sent (the client waits for the reply before it sends the rest)", w)
+					return
+				}
+				if !cur.matches(v) {
+					atomic.StoreInt32(&bad, 1)
+					w["reply"] = v.String()
+					r.Violation("C01:wrong-reply:stop-and-wait:"+cur.class, "reply does not belong to the request at this position", w)
+					return
+				}
+				r.Count("stop_and_wait_requests", 1)
+				r.Distinct("stop-and-wait/" + cur.class + "/" + next.class)
+				cur, carry = next, next.raw[cut:]
+			}
+		}(c)
+	}
+	wg.Wait()
+	sutDied(r, s, "stop-and-wait workload")
+	r.Case("stop-and-wait")
+}
+
+// c01HalfClose: a client that sends a pipeline and then shuts down its sending side (as `printf ... | nc` does) keeps reading: it
+// must still receive exactly one reply per request, in order, and then the end of the stream.
+func c01HalfClose(r *ev.Run, s *sutc.SUT, seed int64, n int) {
+	rnd := rand.New(rand.NewSource(seed))
+	cl, err := fakecluster.New(3, 0)
+	if err != nil {
+		r.Internal("fakecluster: %v", err)
+		return
+	}
+	defer cl.Close()
+	cl.LogArgs = false
+	randomLayout(rnd, cl)
+	var completed sync.Map
+	for _, nd := range cl.Nodes {
+		nd.Handler = echoHandler(nd, &completed)
+		dr := rand.New(rand.NewSource(seed + int64(nd.Idx)))
+		var dmu sync.Mutex
+		nd.Delay = func(args [][]byte) time.Duration {
+			dmu.Lock()
+			defer dmu.Unlock()
+			if dr.Intn(4) == 0 {
+				return time.Duration(dr.Intn(20000)) * time.Microsecond
+			}
+			return 0
+		}
+	}
+	svc, err := startRedisSvc(s, cl, cl.Addrs(), RedisOpts{})
+	if err != nil || !svc.WaitRouting(1, 10*time.Second) {
+		r.Internal("half-close: service did not start: %v", err)
+		return
+	}
+	defer s.StopProc(svc.Name, 20*time.Second)
+	for i := 0; i < n; i++ {
+		conn, err := svc.Dial()
+		if err != nil {
+			r.Internal("dial: %v", err)
+			return
+		}
+		depth := 1 + rnd.Intn(40)
+		var reqs []c01Req
+		var raw []byte
+		for k := 0; k < depth; k++ {
+			q := c01GenReq(rnd, 7000+i, k, false, false)
+			reqs = append(reqs, q)
+			raw = append(raw, q.raw...)
+		}
+		conn.C.Write(raw)
+		if tc, ok := conn.C.(*net.TCPConn); ok {
+			tc.CloseWrite()
+		}
+		got := 0
+		var problem string
+		for k := 0; k < depth; k++ {
+			v, err := conn.Read(5 * time.Second)
+			if err != nil {
+				problem = fmt.Sprintf("reply %d of %d: %v", k, depth, err)
+				break
+			}
+			if !reqs[k].matches(v) {
+				problem = fmt.Sprintf("reply %d does not belong to request %d (%s): %s", k, k, reqs[k].class, v.String())
+				break
+			}
+			got++
+		}
+		if problem == "" {
+			if _, err := conn.Read(5 * time.Second); err == nil {
+				problem = "a reply too many"
+			} else if rclient.IsTimeout(err) {
+				problem = "the proxy did not close the connection after the last reply"
+			}
+		}
+		conn.Close()
+		if problem != "" {
+			if sutDied(r, s, "half-close workload") {
+				return
+			}
+			r.Violation("C01:half-closed-client:replies-missing", "a client sent a pipeline, shut down its sending side and kept reading: it did not get one reply per request followed by the end of the stream",
+				map[string]interface{}{"pipeline_depth": depth, "replies_received": got, "problem": problem, "classes": func() []string {
+					var cs []string
+					for _, q := range reqs[:min(len(reqs), 8)] {
+						cs = append(cs, q.class)
+					}
+					return cs
+				}()})
+			return
+		}
+		r.Count("half_closed_pipelines_answered", 1)
+		r.Case(fmt.Sprintf("half-close/depth%d", min(depth, 5)))
 	}
 }
